@@ -60,8 +60,10 @@ CLAIMED = {
         text='Machine-checked: an accepted job is always visible to the barriers — counted by its queue\'s Len or, from before it leaves the queue until after its worker function '
              'returned, by curProcessing — hence WaitUntilFinished (Len of every queue read 0, then curProcessing read 0) returns only when every job accepted before the call has '
              'finished or been cancelled, and PauseAndWait / Stop / WaitAndStop (curProcessing read 0) return only when no worker function is executing. Per-job projections of the '
-             'whole log are replayed on the extracted model; early and never-returning barriers are monitored on every explored history (exact quiescence detection).',
-        note='Theorems are about coq/SliceDisp.v. No-missed-wake-up is decided by the quiescence monitor and rests on C03. Trusted: Coq kernel, extraction, rewriter + shim runtime, projection, harness.',
+             'whole log are replayed on the extracted model; early and never-returning barriers are monitored on every explored history (exact quiescence detection). No missed wake-up: once a step '
+             'has turned the callers\' condition false and nobody has broadcast since, a thread holds a new obligation (it goes on to releaseWaiters, to broadcast, or to notify the event loop) or the buffered '
+             'signal carries one; the model refuses a step that ends the wait and walks away; per-episode projections (status, curProcessing, queue lengths, releaseWaiters, Broadcast, notify / receive / close) are replayed on it.',
+        note='Theorems are about coq/SliceDisp.v (exactness) and coq/SliceBarrier.v (who owes the broadcast). That the owner of an obligation gets to act is progress (C03), observed by the quiescence monitor. Trusted: Coq kernel, extraction, rewriter + shim runtime, projection, harness.',
         technique='Coq inductive invariant over a one-job-plus-counters transition system + lock-step trace validation', ref='5 C06'),
     'C07': dict(
         text='Machine-checked: every Result() / Err() call on a handle — received from the per-job response channel or read back after its close — yields the value that job\'s own worker '
